@@ -1263,12 +1263,13 @@ def element_system_thickness_rule(ctx, rid, class_names, min_instances=5):
         pt_cls = ci.nested.get("ProblemTypes")
         if pt_cls is not None:
             pts = [t.id for st in pt_cls.node.body if isinstance(st, ast.Assign) for t in st.targets if isinstance(t, ast.Name)] or pts
+        # (truth value of the model flags, dimension of the space the 2-D mesh lies in: planar, or tilted / rotated out of plane)
         for pt in pts:
-            for truth in (True, False):
+            for truth, inDim in ((True, 2), (False, 2), (True, 3)):
                 r.instance(fn=f.qualname)
                 Loose.truth = truth
                 G = Loose("groupElem")
-                mesh = SimpleNamespace(dim=2, inDim=2, Nn=4, groupElem=G, Get_list_groupElem=lambda *a, **k: [G])
+                mesh = SimpleNamespace(dim=2, inDim=inDim, Nn=4, groupElem=G, Get_list_groupElem=lambda *a, **k: [G])
                 from .xarray import XArray as _XA
 
                 fields = {"displacement": _XA((8,), [0] * 8), "damage": _XA((4,), [0] * 4), "thermal": _XA((4,), [0] * 4)}
@@ -1309,7 +1310,7 @@ def element_system_thickness_rule(ctx, rid, class_names, min_instances=5):
 
                 I = Interp(repo, extra_builtins={"Tic": lambda *a, **k: Sink(), "int": lambda x=0: 0 if isinstance(x, Loose) else int(x)})
                 I.attr_hook, I.call_hook = attr_hook, call_hook
-                key = f"{ci.name}:{pt}:flags={truth}"
+                key = f"{ci.name}:{pt}:flags={truth}" + (":inDim3" if inDim == 3 else "")
                 try:
                     out = I.call_function(f, [pt], self_obj=obj)
                 except XRaise:
